@@ -29,16 +29,16 @@ func (p Params) String() string { b, _ := json.Marshal(p); return string(b) }
 
 // st is the model's bookkeeping for one state; it travels with the snapshot of the directory.
 type st struct {
-	Path    []string          `json:"path"`
-	Trace   []string          `json:"trace"`   // outcome per action
-	Created int               `json:"created"` // bugs ever created (numbers the titles)
-	Edits   int               `json:"edits"`   // numbers the comment/title texts
-	Host    *Frame            `json:"host"`
-	Remote  *Frame            `json:"remote"`
-	Key     string            `json:"key"`
-	Tags    []string          `json:"tags"`
+	Path    []string           `json:"path"`
+	Trace   []string           `json:"trace"`   // outcome per action
+	Created int                `json:"created"` // bugs ever created (numbers the titles)
+	Edits   int                `json:"edits"`   // numbers the comment/title texts
+	Host    *Frame             `json:"host"`
+	Remote  *Frame             `json:"remote"`
+	Key     string             `json:"key"`
+	Tags    []string           `json:"tags"`
 	Viol    []xstate.Violation `json:"viol"` // violations of the last action
-	Outcome string            `json:"outcome"`
+	Outcome string             `json:"outcome"`
 	// what stock git already complained about in this state (a later action is only blamed for
 	// new complaints)
 	HostFsck   []string `json:"host_fsck"`
@@ -50,8 +50,9 @@ type model struct {
 	dir     string // the world: dir/host, dir/remote.git, dir/peer, dir/home
 	slots   string
 	cur     *st
-	onDisk  bool // dir holds the state cur describes
-	baseSt  *st  // the initial state
+	onDisk  bool   // dir holds the state cur describes
+	baseSt  *st    // the initial state
+	midHost *Frame // set by an action that contains a change of the host itself (see judge)
 }
 
 // New is the xstate factory.
@@ -171,7 +172,7 @@ func (m *model) Init(dir string) error {
 }
 
 func (m *model) Actions() []string {
-	a := []string{"user-new", "bug-new", "comment", "title", "status", "label", "select", "deselect", "push", "pull", "rm", "attach", "peer-edit", "bridge", "gql", "ls", "wipe", "ls-linked"}
+	a := []string{"user-new", "bug-new", "comment", "title", "status", "label", "select", "deselect", "push", "pull", "rm", "attach", "peer-edit", "bridge", "gql", "ls", "wipe", "ls-linked", "session-config"}
 	if m.p.Alphabet == "thorough" {
 		return append(a, "attach2", "comment-edit", "show", "user-ls", "label-ls")
 	}
@@ -244,7 +245,13 @@ func (m *model) judge(a string, prev, next *st) (viol []xstate.Violation, tags [
 	if next.Remote, err = takeFrame(m.remote(), m.remote()); err != nil {
 		return nil, nil, fmt.Errorf("frame of the remote: %w", err)
 	}
-	for _, d := range prev.Host.Compare(next.Host) {
+	before := prev.Host
+	if m.midHost != nil {
+		// the action contained a change the host made itself with stock git: what git-bug did afterwards
+		// is judged against the frame taken right after that change
+		before, m.midHost = m.midHost, nil
+	}
+	for _, d := range before.Compare(next.Host) {
 		add("c15.host."+d.What, a+":"+sigOf(d), "action %s (%s) disturbed the host repository: %s: %s", a, next.Outcome, d.What, d.Detail)
 	}
 	for _, d := range prev.Remote.Compare(next.Remote) {
